@@ -299,6 +299,11 @@ def build_members(thorough, points_by_mode):
     def add(**kw):
         members.append(kw)
 
+    quick_panic = [p for p in QUICK_PANIC_POINTS if p not in (
+        "enter:Open input files", "enter:Resolve symbols", "enter:Write output file",
+        "after-verify-inputs", "child:before-inform")]
+    quick_signal = [(pt, do) for pt, do in SIGNAL_POINTS
+                    if pt in ("enter:Layout", "parent:before-wait")]
     for kind in kinds:
         for tk in tokens:
             for th in threads:
@@ -309,16 +314,19 @@ def build_members(thorough, points_by_mode):
                         if not full and o not in ("success", "exit-save-skip-linking"):
                             continue
                         add(**cfg, outcome=o, pause="enter:Layout")
-                        if tk >= 1 and o not in ("exit-help", "exit-version") and full:
+                        if tk >= 1 and o not in ("exit-help", "exit-version") and (
+                                thorough or (full and o in ("success", "err-undefined-symbol"))):
                             add(**cfg, outcome=o, k=1)
                     add(**cfg, outcome="probe", pause="enter:Parse file")
-                    if not full:
+                    # With an explicit --threads wild never touches the pipe: the quick tier runs
+                    # the fault outcomes only where tokens are actually taken.
+                    if not full or (not thorough and th is not None):
                         continue
                     pts = points_by_mode[mode] if thorough else [
-                        p for p in QUICK_PANIC_POINTS if p in points_by_mode[mode]]
+                        p for p in quick_panic if p in points_by_mode[mode]]
                     for pt in pts:
                         add(**cfg, outcome="panic", at=pt, do="panic")
-                    for pt, do in SIGNAL_POINTS:
+                    for pt, do in (SIGNAL_POINTS if thorough else quick_signal):
                         if pt in points_by_mode[mode]:
                             add(**cfg, outcome="signal", at=pt, do=do)
     return members
@@ -434,8 +442,9 @@ def main():
                                       f"jobserver not discovered?")
                 if acquired > 0:
                     nontrivial.add(label)
-                thread_table[f"{m['kind']}/tokens={m['tokens']}/threads="
-                             f"{m['threads'] or 'absent'}/{m['mode']}"] = lay
+                if m["outcome"] == "success":
+                    thread_table[f"{m['kind']}/tokens={m['tokens']}/threads="
+                                 f"{m['threads'] or 'absent'}/{m['mode']}"] = lay
                 allowed = acquired + 1
                 if lay["workers"] <= allowed:
                     counts["thread_bound_held"] += 1
@@ -478,12 +487,14 @@ def main():
                     "acquisition point)",
             "samples": samples, "exhaustive": True, **counts,
             "panic_points": {k: len(v) for k, v in points_by_mode.items()} if chk.thorough
-            else {"quick_list": QUICK_PANIC_POINTS},
+            else {"quick_list": [p for p in QUICK_PANIC_POINTS]},
             "threads_at_layout": thread_table,
             "uncatchable_samples": uncatchable_samples,
             "thinned": None if chk.thorough else
-            "quick: fifo kind runs only success / skip-linking / probe; panic at 15 "
-                       "representative points instead of every enter/plain phase point",
+            "quick: fifo kind runs only success / skip-linking / probe; panic at 10 "
+                       "representative points instead of every enter/plain phase point; signals "
+                       "at 2 points; panic / signal outcomes only for --threads absent; competitor "
+                       "only with success and undefined-symbol outcomes",
         }
         chk.assumptions = [
             "panics are injected at `enter:` and plain phase points only: `exit:` points fire "
